@@ -124,10 +124,12 @@ def gen_mixfit(g, kind=None, thorough=False):
     else:
         a['obs'] = _mk(g, 'rclusters', lead + [N, D], K=K,
                        scale=float(g.choice([1.0, 1.0, 1e-2, 30.0])),
+                       offset=float(g.choice([0, 0, 0, 1e3, 3e5])),
                        order=g.choice(['shuffled', 'sorted']))
     if kind == 'gcacgmm':
         a['emb'] = _mk(g, 'rclusters', lead + [N, E], K=K,
                        scale=float(g.choice([1.0, 1.0, 1e-2, 30.0])),
+                       offset=float(g.choice([0, 0, 0, 1e3, 3e5])),
                        order=g.choice(['shuffled', 'sorted']))
     if kind == 'vmfcacgmm':
         a['emb'] = _mk(g, 'unit_rows', lead + [N, E])
@@ -141,9 +143,11 @@ def gen_mixfit(g, kind=None, thorough=False):
         if kind == 'cacgmm' and lead and aligner is None and g.coin(0.15):
             ishape = [1, K, N]
         a['init'] = _mk(g, g.choice(['affiliation', 'affiliation_onehotish']), ishape)
+        if g.coin(0.1):
+            a['init']['dtype'] = 'float32'     # a valid start of lower precision
     sk = g.choice(['none', 'none', 'real', 'int'])
     if sk == 'real':
-        sc = g.choice([1.0, 1.0, 1.0, 1e-2, 1e-4])    # estimators are scale free
+        sc = g.choice([1.0, 1.0, 1.0, 1e-2, 1e-4, 1e-12])    # estimators are scale free
         a['saliency'] = _mk(g, 'uniform', lead + [N], low=0.1 * sc, high=2.0 * sc)
     elif sk == 'int':
         a['saliency'] = _mk(g, 'integers', lead + [N], low=1, high=4)
@@ -225,12 +229,18 @@ def gen_distfit(g):
         a['y'] = _mk(g, 'rconcentrated', lead + [N, D], noise=noise)
     else:
         a['y'] = _mk(g, g.choice(['normal', 'rclusters']), lead + [N, D], K=2)
-    sk = g.choice(['none', 'real', 'int', 'real'])
+    sk = g.choice(['none', 'real', 'int', 'real', 'bool', 'int8'])
     if sk == 'real':
-        sc = g.choice([1.0, 1.0, 1e-2, 1e-4])
+        sc = g.choice([1.0, 1.0, 1e-2, 1e-4, 1e-12])
         a['saliency'] = _mk(g, 'uniform', lead + [N], low=0.0, high=2.0 * sc)
     elif sk == 'int':
         a['saliency'] = _mk(g, 'integers', lead + [N], low=1, high=4)
+    elif sk == 'bool':
+        # a boolean mask is a saliency too (weight zero == observation absent)
+        a['saliency'] = _mk(g, 'bool', lead + [N], p=0.7, some_true=True)
+    elif sk == 'int8':
+        a['saliency'] = _mk(g, 'integers', lead + [N], low=0, high=60,
+                            dtype=g.choice(['int8', 'uint8', 'int32']))
     if kind == 'gaussian':
         a['opts']['covariance_type'] = g.choice(['full', 'diagonal', 'spherical'])
         if a['opts']['covariance_type'] != 'full':
@@ -619,7 +629,7 @@ def run_mixfit(tr, op, program):
         if prev_model is None:
             if op['start'] == 'array':
                 exp = np.broadcast_to(np.asarray(init, dtype=float), aff_shape)
-                if np.max(np.abs(aff - exp)) > 0:
+                if np.max(np.abs(np.asarray(aff, dtype=float) - exp)) > 0:
                     tr.viol('R0', entry, 'step 0 does not start from the given '
                             'initial affiliation', **fault_note)
                     return
@@ -642,6 +652,15 @@ def run_mixfit(tr, op, program):
                 return
             tr.count('estep_comparisons')
         # ---- R1
+        if i == 0 and prev_model is None and (
+                aff.dtype != np.float64
+                or op.get('init', {}).get('dtype') == 'float32'):
+            # a single-precision start is used as it is: the first M-step is
+            # then computed (partly) in single precision and cannot be held
+            # to 1e-8; the alternation is checked from the next step on
+            tr.count('probe:first_mstep_not_judged_low_precision_start')
+            prev_model = model
+            continue
         gamma = aff if sal_b is None else aff * sal_b[..., None, :]
         mass = gamma.sum(axis=-1)
         if kind in models.INTEGRATION:
